@@ -3,6 +3,7 @@ package props
 import (
 	"encoding/json"
 	"fmt"
+	"sort"
 	"strconv"
 	"testing"
 
@@ -105,6 +106,28 @@ func TestC06_Reference(t *testing.T) {
 			e = &bx.Or{L: g.Match(), R: e}
 		case 2:
 			e = &bx.And{L: e, R: g.Match()}
+		case 3, 4:
+			// a sibling operand, evaluated AFTER the quantifier has finished (early or not), whose selector starts with
+			// a name the quantifier bound: outside the braces the name means the datum's key of that name, if any
+			var names []string
+			for n := range quantNames(q) {
+				names = append(names, n)
+			}
+			sort.Strings(names)
+			if len(names) > 0 {
+				parts := []string{names[rapid.IntRange(0, len(names)-1).Draw(t, "siblingName")]}
+				if extra := []string{"", "a", "0", "k", "name"}[rapid.IntRange(0, 4).Draw(t, "siblingPart")]; extra != "" {
+					parts = append(parts, extra)
+				}
+				sib := &bx.Match{Sel: bx.Sel{Parts: parts}, Op: []bx.Op{bx.OpEq, bx.OpNe, bx.OpEmpty, bx.OpIn, bx.OpNotEmpty}[rapid.IntRange(0, 4).Draw(t, "siblingOp")], Lit: "1"}
+				if bx.Expressible(sib.Sel) && !bx.Keywords[parts[0]] {
+					if rapid.Bool().Draw(t, "siblingAnd") {
+						e = &bx.And{L: e, R: sib}
+					} else {
+						e = &bx.Or{L: e, R: sib}
+					}
+				}
+			}
 		}
 		rend := bx.NewRenderer(chooser(t))
 		rend.MaxParen = 2
